@@ -423,6 +423,9 @@ func errExempt(fn *ssa.Function, call *ssa.Call) string {
 	switch {
 	case isLibCall(cc, "golang.org/x/sync/singleflight", "Group", "Do"):
 		return "singleflight.Group.Do: the closure passed in client.FetchURL always returns a nil error (the fetch error travels inside the bundle)"
+	case isLibCall(cc, "strings", "Builder", "WriteString"), isLibCall(cc, "strings", "Builder", "WriteByte"), isLibCall(cc, "strings", "Builder", "WriteRune"), isLibCall(cc, "strings", "Builder", "Write"),
+		isLibCall(cc, "bytes", "Buffer", "WriteString"), isLibCall(cc, "bytes", "Buffer", "WriteByte"), isLibCall(cc, "bytes", "Buffer", "WriteRune"), isLibCall(cc, "bytes", "Buffer", "Write"):
+		return "writing to an in-memory builder: documented to always return a nil error"
 	case objFullName(calleeObj(cc)) == "github.com/hashicorp/golang-lru/v2.New":
 		return "lru.New fails only for a non-positive size, which C19.R3 requires the configuration to reject"
 	}
